@@ -1,1 +1,33 @@
-//! Hooks for property C13 (empty until needed).
+//! Hooks for property C13 (results do not depend on scheduling; commands terminate).
+//!
+//! Runs the parallel tree walker (`TreeStreamerOnce`, used by prune, check and copy) on an
+//! indexed repository and returns the trees in the order it delivers them.
+use crate::{
+    blob::tree::{TreeId, TreeStreamerOnce},
+    error::{ErrorKind, RusticError, RusticResult},
+    repository::{IndexedTree, Repository},
+};
+
+/// Walk all trees reachable from `roots` with `TreeStreamerOnce`; returns, in delivery order,
+/// the path each tree was found under, its id (recomputed from its serialisation) and the ids
+/// of its subtrees.
+pub fn tree_streamer_once<S: IndexedTree>(
+    repo: &Repository<S>,
+    roots: Vec<TreeId>,
+) -> RusticResult<Vec<(String, TreeId, Vec<TreeId>)>> {
+    let p = repo.progress_counter("verif: walking trees");
+    let mut out = Vec::new();
+    let mut streamer = TreeStreamerOnce::new(repo.dbe(), repo.index(), roots, p)?;
+    while let Some(item) = streamer.next().transpose()? {
+        let (path, tree) = item;
+        let (_, id) = tree.serialize().map_err(|err| {
+            RusticError::with_source(ErrorKind::Internal, "Failed to serialize tree.", err)
+        })?;
+        out.push((
+            path.to_string_lossy().to_string(),
+            id,
+            tree.nodes.iter().filter_map(|n| n.subtree).collect(),
+        ));
+    }
+    Ok(out)
+}
